@@ -378,6 +378,13 @@ LIB_META.update({
             "random configurations (seeded). Oracle: every quoted string token (own lexer), every call site with its suffix context and "
             "every function header of the re-parsed output is judged against the rule for the option value. Non-trivial as for C01; "
             "counters give strings / calls / headers judged."),
+    "C12": ("exploration", "10 pinned programs (adjacent / blank-line separated / other statement between / mixed kinds / ignore region / single "
+            "ignore / comments / two on a line / duplicate names / nested block) with sorting on and off and with ranges; every corpus file "
+            "with sorting on and off; seeded require-heavy top levels (duplicate and mixed-case names, type assertions, string-call and "
+            "field forms, trailing comments, semicolons, two members on one line, multi-line members, blank lines, comment lines, ignore "
+            "directives and regions, random ranges). Oracle: the sequence of per-statement normal forms of the output equals the "
+            "independent model's sequence (groups, freezing, stable byte-wise sort); comment census unchanged. Non-trivial as for C01; "
+            "counters give groups sorted / frozen."),
 })
 
 COMMON_ASSUMPTIONS = [
